@@ -21,7 +21,7 @@ ASSUMPTIONS = ["invalid_disparity values are float32-representable (the map is f
 GATES = {
     "two_blocks_both_axes_with_tie_and_allnan_in_later_block": 1,
     "nan_invalid_disparity": 1, "more_than_256_disparity_samples": 1,
-    "max_type_with_ties": 1,
+    "max_type_with_ties": 1, "volume_is_a_window_of_a_larger_buffer": 3, "volume_in_the_matching_cost_layout": 3,
     "all_27_patterns_D3": 1,
     "pipeline_disparity_steps": 5,
     "pixels_judged": 100000,
@@ -187,9 +187,24 @@ def run_case(case, ctx):
             conf[rng.random(conf.shape) < 0.1] = np.nan
             names = ["confidence_from_a", "confidence_from_b.x"]
         validity = rng.choice(np.array([0, 1, 2, 4, 64, 66, 130], np.uint16), (rows, cols))
+        # memory layout of the volume handed to the step: dense C order, the matching-cost step's layout (allocated
+        # (disp, col, row) and transposed), Fortran order, or a window of a larger buffer (what .isel() of a volume gives)
+        layout = ["C", "matching-cost", "F", "window"][(case["j"] + 3 * rows + cols) % 4 if rows * cols <= 40000 else 0]
+        if layout == "matching-cost":
+            costs = np.ascontiguousarray(costs.transpose(2, 1, 0)).transpose(2, 1, 0)
+        elif layout == "F":
+            costs = np.asfortranarray(costs)
+        elif layout == "window":
+            big = np.full((rows + 2, cols + 3, nd + 2), np.float32(7.0))
+            big[1:-1, 2:-1, 1:-1] = costs
+            costs = big[1:-1, 2:-1, 1:-1]
         cv = gen.make_cv(costs, disps, tm, subpix=subpix, validity=validity, conf=conf, conf_names=names)
+        if layout != "C" and cv["cost_volume"].data.flags["C_CONTIGUOUS"] and rows * cols * nd > 1:
+            ctx.inconclusive.append(f"layout {layout} was lost when the dataset was built")
+        ctx.gate("volume_is_a_window_of_a_larger_buffer", int(layout == "window" and nan_kind != "none"))
+        ctx.gate("volume_in_the_matching_cost_layout", int(layout == "matching-cost"))
         before = gen.deep_copy_ds(cv)
-        desc = {"shape": [rows, cols], "D": nd, "type": tm, "subpix": subpix, "nan_kind": nan_kind, "floaty": floaty,
+        desc = {"shape": [rows, cols], "D": nd, "type": tm, "subpix": subpix, "nan_kind": nan_kind, "floaty": floaty, "layout": layout,
                 "invalid_disparity": inv}
         disp_ = disparity.AbstractDisparity(disparity_method="wta", invalid_disparity=inv_val)
         out = disp_.to_disp(cv, None, None)
